@@ -23,8 +23,17 @@ class Profile:
         self.p_init = 0.3
         self.root_classes = ["Leaf", "LeafB", "Other", "Node", "Node", "Rec", "Rec", "Gen", "Holder", "TaskT", "TaskO", "TaskT"]
         self.tasks = True
+        self.p_task_param = 1.0  # probability of filling an optional parameter that needs a submitted task
         self.control_chars = False
         self.__dict__.update(kw)
+
+
+def _needs_task(t):
+    if isinstance(t, tuple):
+        if t[0] == "cfg":
+            return SCHEMA[t[1]]["task"]
+        return _needs_task(t[1])
+    return False
 
 
 class RecipeGen:
@@ -124,6 +133,8 @@ class RecipeGen:
         kwargs = []
         for name, p in SCHEMA[cls]["params"].items():
             if p.generator or p.constant:
+                continue
+            if not p.required and self.p.p_task_param < 1.0 and _needs_task(p.type) and r.random() > self.p.p_task_param:
                 continue
             if p.required or r.random() < (self.p.p_optional if depth < self.p.max_depth else 0.15):
                 # ignored list/dict of paths etc. are fine; Path values never reach the hasher
